@@ -115,21 +115,43 @@ def sx_isinstance(x, cls):
     return builtins.isinstance(x, cls)
 
 
-def sx_log(x, *base):
-    if isinstance(x, (SInt, SWord)) or any(isinstance(b, (SInt, SWord)) for b in base):
-        raise Unencodable('floating-point math.log on a symbolic integer')
+def _float_shim(name):
     import math
-    return math.log(x, *base)
+    real = getattr(math, name)
+
+    def shim(*args):
+        if any(isinstance(a, (SInt, SWord)) for a in args):
+            raise Unencodable(f'floating-point math.{name} on a symbolic integer')
+        return real(*args)
+    shim.__sx_shim__ = True
+    shim.__name__ = name
+    return real, shim
 
 
-sx_log.__sx_shim__ = True
+_FLOAT_FUNCS = {n: _float_shim(n) for n in ('log', 'log2', 'log10', 'log1p', 'sqrt', 'exp', 'pow', 'ceil', 'floor')}
+sx_log = _FLOAT_FUNCS['log'][1]
+
+
+class _MathShim:
+    """Stands for the math module inside /repo modules: floating-point functions on symbolic integers are
+    not encodable (the kernel's labelled concrete fallback takes over); everything else is the real module."""
+
+    def __getattr__(self, k):
+        import math
+        if k in _FLOAT_FUNCS:
+            return _FLOAT_FUNCS[k][1]
+        return getattr(math, k)
 
 
 def patch_math_names(mod):
     import math
     d = mod.__dict__
-    if d.get('log') is math.log:
-        d['log'] = sx_log
+    for n, (real, shim) in _FLOAT_FUNCS.items():
+        if d.get(n) is real:
+            d[n] = shim
+    for k, v in list(d.items()):
+        if v is math:
+            d[k] = _MathShim()
 
 
 NO_ORDER_MODULES = {'electrumx.server.history', 'electrumx.server.db'}
